@@ -1170,6 +1170,7 @@ Section Phases.
     Let failed := flat_map (fent_of c pos s) (seq 0 n).
     Hypothesis CFj : cf_junk hashf padz bs failed.
     Hypothesis CFr : cf_rec hashf padz bs failed rec v.
+    Hypothesis CFv : cf_vec hashf padz bs failed v.
     Hypothesis CFs : cf_search hashf bs (co_nosearch o) fs0 failed v.
     (* at most as many damaged blocks as intact parity levels *)
     Hypothesis Hcount : length (filter (is_bad c pos s) (seq 0 n)) <= length (filter (good_level v rec) (seq 0 nlev)).
@@ -1183,7 +1184,7 @@ Section Phases.
 
     Lemma failed_es : failed = map we_ent es.
     Proof.
-      clear CFj CFr CFs Hcount. unfold failed, es. generalize (seq 0 n). intro l. induction l as [|j t IH]; [reflexivity|].
+      clear CFj CFr CFv CFs Hcount. unfold failed, es. generalize (seq 0 n). intro l. induction l as [|j t IH]; [reflexivity|].
       cbn [flat_map]. rewrite map_app, IH. f_equal. unfold fent_of.
       destruct (slot_of c pos j); try reflexivity. destruct (is_bad c pos s j); reflexivity.
     Qed.
@@ -1271,7 +1272,7 @@ Section Phases.
       pose proof (parity_phase_spec o pos (da_st a) (pl_popen o Hplain)) as Epp. rewrite Cpar in Epp. fold rec in Epp.
       (* repair *)
       destruct (repair_restores hashf padz bs nlev reduced pos (co_nosearch o) fs0 failed rec v (da_buf a)
-                  (r_jn (da_st a)) Hblk Hhv CFj CFr CFs Hag Hcnt) as [buf' [jn' [rtags [Erep [Hfl1 Hfl2]]]]].
+                  (r_jn (da_st a)) Hblk Hhv CFj CFr CFv CFs Hag Hcnt) as [buf' [jn' [rtags [Erep [Hfl1 Hfl2]]]]].
       cbn zeta.
       erewrite (stripe_step_ok o c fs0 pos s rec _ failed buf' jn' rtags); [| exact (pl_audit o Hplain) | fold a; exact Epp | fold a; rewrite Ifailed; cbn [r_jn]; exact Erep].
       fold a. rewrite Iused, Ivalid.
@@ -1657,6 +1658,7 @@ Section Phases.
     Let failed := flat_map (fent_of c pos s) (seq 0 n).
     Hypothesis CFj : cf_junk hashf padz bs failed.
     Hypothesis CFr : cf_rec hashf padz bs failed rec v.
+    Hypothesis CFv : cf_vec hashf padz bs failed v.
     Hypothesis CFs : cf_search hashf bs (co_nosearch o) fs0 failed v.
     Hypothesis Hcount : length (filter (is_bad c pos s) (seq 0 n)) <= length (filter (good_level v rec) (seq 0 nlev)).
 
@@ -1722,7 +1724,7 @@ Section Phases.
       pose proof (parity_phase_spec o pos (da_st a) (pl_popen o Hplain)) as Epp. rewrite Cpar in Epp. fold rec in Epp.
       (* repair *)
       destruct (repair_restores hashf padz bs nlev reduced pos (co_nosearch o) fs0 failed rec v (da_buf a)
-                  (r_jn (da_st a)) Hblk Hhv CFj CFr CFs Hag Hcnt) as [buf' [jn' [rtags [Erep [Hfl1 Hfl2]]]]].
+                  (r_jn (da_st a)) Hblk Hhv CFj CFr CFv CFs Hag Hcnt) as [buf' [jn' [rtags [Erep [Hfl1 Hfl2]]]]].
       cbn zeta.
       erewrite (stripe_step_ok o c fs0 pos s rec _ failed buf' jn' rtags); [| exact (pl_audit o Hplain) | fold a; exact Epp | fold a; rewrite Ifailed; cbn [r_jn]; exact Erep].
       fold a. rewrite Iused, Ivalid.
